@@ -147,7 +147,11 @@ def trig_reserved_word_as_key(case, v):
     if not m:
         return False
     c1 = m.group(1).encode().decode("unicode_escape", "ignore")
-    return bool(_re.search(r"(^|\n)\s*(true|false|null)::", c1))
+    return bool(_re.search(r"(^|\n)\s*(true|false|null|vs)::?", c1))
 
 
-TRIGGERS = {"cr_in_value": trig_cr_in_value, "reserved_word_as_key": trig_reserved_word_as_key}
+def trig_glued_vs(case, v):
+    return isinstance(case, list) and case[0] == "list" and "vs" in case[2] and any(t in ("&", "∧") for t in case[2]) and " vs" in str(v.get("observed", ""))
+
+
+TRIGGERS = {"glued_vs_in_pattern": trig_glued_vs, "cr_in_value": trig_cr_in_value, "reserved_word_as_key": trig_reserved_word_as_key}
